@@ -80,6 +80,14 @@ ASSUMPTIONS = [
     "{-12,-9,-6,-3,0,4,9,15}, and one data mode plants candidates that differ by multiples of 2**-36 (~1.5e-11) around a "
     "common value (near-ties whose sums stay exactly representable); all oracles are scale-free (exact comparisons on "
     "fresh evaluations, tolerances proportional to the sum of absolute terms), so no clause changes with the unit",
+    "'with or without constraints': besides the single classic rows (capped count, sum mod m) problems carry 2-4 constraint "
+    "rows of both kinds built from small integers (row = form(sum of the integers a[.] the decision collects - offset), "
+    "a in {0,1,2}: family counts; forms max(0,.) / |.| for the hill-climbers, additionally signed for the pymoo-backed "
+    "optimisers), often the same or the complementary membership vector in two rows and one common weight, so that exact "
+    "ties of the aggregate violation sum(G)+sum(H) between decisions whose individual rows differ, exact ties of scores and "
+    "of violations are frequent; in `exact` 3 cases in 7 fix by ONE draw the combination (hill-climber, >= 1 inequality and "
+    ">= 1 equality row of that kind, mostly non-additive objective).  Weights x integer values are exactly representable, so "
+    "the harness aggregate and the optimiser's are the same float",
     "population-wise evaluation (elementwise=False, a documented constructor option) is drawn for 3/8 of the problems "
     "handed to pymoo-backed optimisers, and then half of them carry an inequality AND an equality constraint, so that "
     "the F / G / H columns assembled by Problem._evaluate's matrix branch are each compared with a fresh evaluation",
@@ -127,6 +135,59 @@ def spec_scale(spec):
     return 10.0 ** int(spec.get("scale_exp", 0))
 
 
+def _mc(spec):
+    """additional constraint rows: {"G": [row...], "H": [row...]}, row = {"a": small integers per candidate / variable,
+    "b": offset, "form": "pos" | "abs" | "signed", "wt": weight, optional "posmask"}; row value =
+    form( sum of the a-values the decision collects - b ): counts such as members from family A minus the allowed number"""
+    return spec.get("mc") or {"G": [], "H": []}
+
+
+def spec_rows(spec):
+    """(number of inequality rows, number of equality rows) of a generated problem"""
+    mc = _mc(spec)
+    return (1 if spec["ineq"] else 0) + len(mc["G"]), (1 if spec["eq"] else 0) + len(mc["H"])
+
+
+def is_constrained(spec):
+    return sum(spec_rows(spec)) > 0
+
+
+def _cv_wts(spec):
+    """constructor arguments nineqcv, ineqcv_wt, neqcv, eqcv_wt (one weight per row, the single classic row first)"""
+    mc = _mc(spec)
+    gw = ([spec["ineq"]["wt"]] if spec["ineq"] else []) + [r["wt"] for r in mc["G"]]
+    hw = ([spec["eq"]["wt"]] if spec["eq"] else []) + [r["wt"] for r in mc["H"]]
+    return dict(nineqcv=len(gw), ineqcv_wt=numpy.array(gw, dtype=float) if gw else None,
+                neqcv=len(hw), eqcv_wt=numpy.array(hw, dtype=float) if hw else None)
+
+
+def _mc_form(v, form):
+    v = float(v)
+    if form == "pos":
+        return max(0.0, v)
+    if form == "abs":
+        return abs(v)
+    return v
+
+
+def _mc_arrays(rows):
+    return [(numpy.array(r["a"], dtype=float), numpy.array(r["posmask"], dtype=float) if r.get("posmask") else None,
+             float(r["b"]), r["form"]) for r in rows]
+
+
+def _mc_subset_values(rows, idx):
+    """unweighted values of the rows at the decision whose i-th position holds candidate number idx[i]"""
+    out = []
+    for a, pm, b, form in rows:
+        c = a[idx] if pm is None else a[idx] * pm[:len(idx)]
+        out.append(_mc_form(c.sum() - b, form))
+    return out
+
+
+def _mc_vector_values(rows, xf):
+    return [_mc_form(xf.dot(a) - b, form) for a, pm, b, form in rows]
+
+
 class _NoLatent:
     def latentfn(self, x, *args, **kwargs):     # not abstract in opt.prob, present for symmetry with selection problems
         raise NotImplementedError
@@ -153,14 +214,14 @@ class HSubsetTable(_NoLatent, SubsetProblem):
         self._posmask = numpy.array(iq["posmask"], dtype=float) if (iq and iq.get("posmask")) else None
         self._flags = numpy.array(iq["flags"], dtype=float) if iq else numpy.zeros(len(labels))
         self._t = numpy.array(eq["t"], dtype="int64") if eq else numpy.zeros(len(labels), dtype="int64")
+        self._mcG = _mc_arrays(_mc(spec)["G"])
+        self._mcH = _mc_arrays(_mc(spec)["H"])
         self.nevals = 0
         space = numpy.array(labels, dtype="int64")
         SubsetProblem.__init__(
             self, ndecn=spec["k"], decn_space=space, decn_space_lower=int(space.min()), decn_space_upper=int(space.max()),
             nobj=spec["nobj"], obj_wt=numpy.array(spec["wt"], dtype=float),
-            nineqcv=1 if iq else 0, ineqcv_wt=numpy.array([iq["wt"]], dtype=float) if iq else None,
-            neqcv=1 if eq else 0, eqcv_wt=numpy.array([eq["wt"]], dtype=float) if eq else None,
-            elementwise=bool(spec.get("elementwise", True)))
+            elementwise=bool(spec.get("elementwise", True)), **_cv_wts(spec))
 
     def evalfn(self, x, *args, **kwargs):
         self.nevals += 1
@@ -173,20 +234,26 @@ class HSubsetTable(_NoLatent, SubsetProblem):
             lat = lat + self._slot[idx, numpy.arange(len(idx))].sum()
         obj = self.obj_wt * lat
         iq, eq = self.spec["ineq"], self.spec["eq"]
+        gv, hv = [], []
         if iq:
             fl = self._flags[idx] if self._posmask is None else self._flags[idx] * self._posmask[:len(idx)]
             slack = float(fl.sum() - iq["cap"])
-            g = self.ineqcv_wt * numpy.array([(slack if iq.get("signed") else max(0.0, slack)) + iq["base"]], dtype=float)
-        else:
-            g = numpy.zeros(0)
+            gv.append((slack if iq.get("signed") else max(0.0, slack)) + iq["base"])
         if eq:
-            h = self.eqcv_wt * numpy.array([float(int(self._t[idx].sum()) % eq["m"])], dtype=float)
-        else:
-            h = numpy.zeros(0)
+            hv.append(float(int(self._t[idx].sum()) % eq["m"]))
+        gv += _mc_subset_values(self._mcG, idx)
+        hv += _mc_subset_values(self._mcH, idx)
+        g = self.ineqcv_wt * numpy.array(gv, dtype=float) if gv else numpy.zeros(0)
+        h = self.eqcv_wt * numpy.array(hv, dtype=float) if hv else numpy.zeros(0)
         return obj, g, h
 
     def data_arrays(self):
         d = {"_vals": self._vals, "_u": self._u, "_flags": self._flags, "_t": self._t}
+        for nm, rows in (("_mcG", self._mcG), ("_mcH", self._mcH)):
+            for r, (a, pm, b, form) in enumerate(rows):
+                d["%s%d_a" % (nm, r)] = a
+                if pm is not None:
+                    d["%s%d_posmask" % (nm, r)] = pm
         if self._slot is not None:
             d["_slot"] = self._slot
         if self._posmask is not None:
@@ -201,14 +268,24 @@ class HSubsetTable(_NoLatent, SubsetProblem):
         return numpy.abs(self.obj_wt) * s
 
 
-def _ineq_count_trans(decnvec, latentvec, flagmap=None, cap=0, base=0, signed=False, **kwargs):
-    cnt = sum(flagmap.get(int(e), 0) for e in decnvec)
-    slack = float(cnt) - cap
-    return numpy.array([(slack if signed else max(0.0, slack)) + base], dtype=float)
+def _ineq_count_trans(decnvec, latentvec, flagmap=None, cap=0, base=0, signed=False, rows=(), pos=None, **kwargs):
+    out = []
+    if flagmap is not None:
+        cnt = sum(flagmap.get(int(e), 0) for e in decnvec)
+        slack = float(cnt) - cap
+        out.append((slack if signed else max(0.0, slack)) + base)
+    if rows:
+        out += _mc_subset_values(rows, [pos[int(e)] for e in decnvec])
+    return numpy.array(out, dtype=float)
 
 
-def _eq_mod_trans(decnvec, latentvec, tmap=None, m=2, **kwargs):
-    return numpy.array([float(sum(tmap.get(int(e), 0) for e in decnvec) % m)], dtype=float)
+def _eq_mod_trans(decnvec, latentvec, tmap=None, m=2, rows=(), pos=None, **kwargs):
+    out = []
+    if tmap is not None:
+        out.append(float(sum(tmap.get(int(e), 0) for e in decnvec) % m))
+    if rows:
+        out += _mc_subset_values(rows, [pos[int(e)] for e in decnvec])
+    return numpy.array(out, dtype=float)
 
 
 def build_subset_problem(spec):
@@ -218,17 +295,21 @@ def build_subset_problem(spec):
     ebv = numpy.array(spec["ebv"], dtype=float).reshape(spec["nrow"], spec["ntrait"]) * spec_scale(spec)
     iq, eq = spec["ineq"], spec["eq"]
     space = numpy.array(labels, dtype="int64")
+    pos = {e: i for i, e in enumerate(labels)}
+    gkw = {"rows": _mc_arrays(_mc(spec)["G"]), "pos": pos}
+    hkw = {"rows": _mc_arrays(_mc(spec)["H"]), "pos": pos}
+    if iq:
+        gkw.update(flagmap=dict(zip(labels, iq["flags"])), cap=iq["cap"], base=iq["base"], signed=bool(iq.get("signed")))
+    if eq:
+        hkw.update(tmap=dict(zip(labels, eq["t"])), m=eq["m"])
+    ng, nh = spec_rows(spec)
     prob = EstimatedBreedingValueSubsetSelectionProblem(
         ebv=ebv, ndecn=spec["k"], decn_space=space, decn_space_lower=int(space.min()), decn_space_upper=int(space.max()),
         nobj=spec["nobj"], obj_wt=numpy.array(spec["wt"], dtype=float),
         obj_trans=trans_sum if spec["trans"] == "sum" else None,
-        nineqcv=1 if iq else 0, ineqcv_wt=numpy.array([iq["wt"]], dtype=float) if iq else None,
-        ineqcv_trans=_ineq_count_trans if iq else None,
-        ineqcv_trans_kwargs={"flagmap": dict(zip(labels, iq["flags"])), "cap": iq["cap"], "base": iq["base"], "signed": bool(iq.get("signed"))} if iq else None,
-        neqcv=1 if eq else 0, eqcv_wt=numpy.array([eq["wt"]], dtype=float) if eq else None,
-        eqcv_trans=_eq_mod_trans if eq else None,
-        eqcv_trans_kwargs={"tmap": dict(zip(labels, eq["t"])), "m": eq["m"]} if eq else None,
-        elementwise=bool(spec.get("elementwise", True)))
+        ineqcv_trans=_ineq_count_trans if ng else None, ineqcv_trans_kwargs=gkw if ng else None,
+        eqcv_trans=_eq_mod_trans if nh else None, eqcv_trans_kwargs=hkw if nh else None,
+        elementwise=bool(spec.get("elementwise", True)), **_cv_wts(spec))
     return prob
 
 
@@ -257,6 +338,8 @@ class _VecMixin(_NoLatent):
         iq, eq = spec["ineq"], spec["eq"]
         self._c = numpy.array(iq["c"], dtype=float) if iq else numpy.zeros(n)
         self._t = numpy.array(eq["t"], dtype="int64") if eq else numpy.zeros(n, dtype="int64")
+        self._mcG = _mc_arrays(_mc(spec)["G"])
+        self._mcH = _mc_arrays(_mc(spec)["H"])
         self.nevals = 0
 
     def evalfn(self, x, *args, **kwargs):
@@ -268,19 +351,24 @@ class _VecMixin(_NoLatent):
             lat = lat + self._q * s * s * self._qdir
         obj = self.obj_wt * lat
         iq, eq = self.spec["ineq"], self.spec["eq"]
+        gv, hv = [], []
         if iq:
             slack = float(xf.dot(self._c) - iq["cap"])
-            g = self.ineqcv_wt * numpy.array([(slack if iq.get("signed") else max(0.0, slack)) + iq["base"]], dtype=float)
-        else:
-            g = numpy.zeros(0)
+            gv.append((slack if iq.get("signed") else max(0.0, slack)) + iq["base"])
         if eq:
-            h = self.eqcv_wt * numpy.array([float(int(numpy.asarray(x).astype("int64").dot(self._t)) % eq["m"])], dtype=float)
-        else:
-            h = numpy.zeros(0)
+            hv.append(float(int(numpy.asarray(x).astype("int64").dot(self._t)) % eq["m"]))
+        gv += _mc_vector_values(self._mcG, xf)
+        hv += _mc_vector_values(self._mcH, xf)
+        g = self.ineqcv_wt * numpy.array(gv, dtype=float) if gv else numpy.zeros(0)
+        h = self.eqcv_wt * numpy.array(hv, dtype=float) if hv else numpy.zeros(0)
         return obj, g, h
 
     def data_arrays(self):
-        return {"_A": self._A, "_u": self._u, "_c": self._c, "_t": self._t}
+        d = {"_A": self._A, "_u": self._u, "_c": self._c, "_t": self._t}
+        for nm, rows in (("_mcG", self._mcG), ("_mcH", self._mcH)):
+            for r, (a, pm, b, form) in enumerate(rows):
+                d["%s%d_a" % (nm, r)] = a
+        return d
 
     def term_scale(self, x):
         xf = numpy.abs(numpy.asarray(x).astype(float))
@@ -290,12 +378,9 @@ class _VecMixin(_NoLatent):
 def _vec_kwargs(spec, dtype):
     lo = numpy.array(spec["lo"], dtype=dtype)
     hi = numpy.array(spec["hi"], dtype=dtype)
-    iq, eq = spec["ineq"], spec["eq"]
     return dict(ndecn=spec["n"], decn_space=numpy.stack([lo, hi]), decn_space_lower=lo, decn_space_upper=hi,
                 nobj=spec["nobj"], obj_wt=numpy.array(spec["wt"], dtype=float),
-                nineqcv=1 if iq else 0, ineqcv_wt=numpy.array([iq["wt"]], dtype=float) if iq else None,
-                neqcv=1 if eq else 0, eqcv_wt=numpy.array([eq["wt"]], dtype=float) if eq else None,
-                elementwise=bool(spec.get("elementwise", True)))
+                elementwise=bool(spec.get("elementwise", True)), **_cv_wts(spec))
 
 
 class HReal(_VecMixin, RealProblem):
@@ -316,9 +401,14 @@ class HBinary(_VecMixin, BinaryProblem):
         BinaryProblem.__init__(self, **_vec_kwargs(spec, "int64"))
 
 
-def _ineq_lin_trans(decnvec, latentvec, c=None, cap=0, base=0, signed=False, **kwargs):
-    slack = float(numpy.asarray(decnvec).astype(float).dot(c)) - cap
-    return numpy.array([(slack if signed else max(0.0, slack)) + base], dtype=float)
+def _ineq_lin_trans(decnvec, latentvec, c=None, cap=0, base=0, signed=False, rows=(), **kwargs):
+    xf = numpy.asarray(decnvec).astype(float)
+    out = []
+    if c is not None:
+        slack = float(xf.dot(c)) - cap
+        out.append((slack if signed else max(0.0, slack)) + base)
+    out += _mc_vector_values(rows, xf)
+    return numpy.array(out, dtype=float)
 
 
 VEC = {
@@ -334,9 +424,12 @@ def build_vector_problem(family, spec):
         return hcls(spec)
     kw = _vec_kwargs(spec, dt)
     iq = spec["ineq"]
+    gkw = {"rows": _mc_arrays(_mc(spec)["G"])}
+    if iq:
+        gkw.update(c=numpy.array(iq["c"], dtype=float), cap=iq["cap"], base=iq["base"], signed=bool(iq.get("signed")))
+    ng = spec_rows(spec)[0]
     kw.update(ebv=numpy.array(spec["A"], dtype=float).reshape(spec["n"], spec["nobj"]) * spec_scale(spec),
-              ineqcv_trans=_ineq_lin_trans if iq else None,
-              ineqcv_trans_kwargs={"c": numpy.array(iq["c"], dtype=float), "cap": iq["cap"], "base": iq["base"], "signed": bool(iq.get("signed"))} if iq else None)
+              ineqcv_trans=_ineq_lin_trans if ng else None, ineqcv_trans_kwargs=gkw if ng else None)
     return ecls(**kw)
 
 
@@ -511,11 +604,17 @@ CVWT = [1.0, 1.0, 2.0, 0.5]
 SCALE_EXP = [0] * 4 + [-12, -9, -9, -6, -3, 4, 9, 15] + [0] * 3
 NEAR_TIE_STEP = 2.0 ** -36          # ~1.5e-11: candidates that differ in the 11th digit (sums stay exactly representable)
 EW_FALSE = [False, False, True, False, True, False, True, False]
-CONS = ["none", "none", "none", "ineq", "ineq", "eq", "both"]
-CONS_MATRIX = ["ineq", "both", "none", "both", "eq", "both", "ineq"]    # population-wise evaluation stacks F, G and H separately
 # position-dependent problems (member x[i] fills ordered slot i): share of the table problems, per sub-check
 SLOT_EXACT = [False, True, False, True, False]
 SLOT_GA = [False, False, True, False, False, False]
+# "multi": several constraint rows of both kinds built from small integers (counts), see mc_rows
+CONS_EXACT = ["none", "none", "multi", "ineq", "multi", "eq", "multi", "both", "ineq", "multi", "none"]
+CONS_GA = ["none", "none", "multi", "ineq", "ineq", "multi", "eq", "both", "none"]
+CONS_MATRIX_GA = ["ineq", "both", "multi", "none", "both", "multi", "eq", "both", "ineq"]   # population-wise evaluation stacks F, G and H separately
+# numbers of (inequality, equality) rows of a "multi" problem
+MC_COUNTS = [[1, 1], [2, 1], [1, 2], [0, 2], [2, 2], [1, 1], [3, 1], [2, 0], [0, 3], [1, 3], [1, 1]]
+MC_A = [0, 1, 1, 0, 2, 0, 1]
+MC_FAMILIES = [True, False, True]
 
 
 def _numbers(draw, count):
@@ -531,9 +630,63 @@ def _numbers(draw, count):
 
 
 @st.composite
-def subset_spec(draw, nobj, nmax=12, kmax=6, infeasible_ok=False, matrix_eval=False, signed_ok=False, slot=SLOT_GA):
-    kind = draw(st.sampled_from(["table", "table", "table", "ebv"]))
-    shape = draw(st.sampled_from(["typical"] * 7 + ["any", "any", "full"]))
+def mc_rows(draw, n, collect, bmax, eq_ok=True, signed_ok=False, feasible_bias=True, npos=0, both_kinds=False):
+    """Several constraint rows of both kinds whose data come from small integer sets: row value =
+    form( sum of the integers a[.] the decision collects - b ), the shape of every count restriction ("members from
+    family A", "at most two from family B", "load on unit c").  Rows may repeat or complement the previous row's
+    membership vector (a partition into families), and mostly share one weight, so that exchanges which move violation
+    from one row to another leave the aggregate violation exactly tied while the individual rows change; exact ties
+    between the violations of different decisions are the rule, not the exception.
+    collect(a, posmask) = what a witness decision drawn by the caller collects: offsets taken from it make the witness
+    satisfy the row (jointly feasible problems), the other offsets are arbitrary small integers."""
+    counts = MC_COUNTS if eq_ok else [[2, 0], [3, 0], [2, 0]]
+    ng, nh = draw(st.sampled_from([c for c in counts if c[0] and c[1]] if both_kinds else counts))
+    common_wt = draw(st.sampled_from(CVWT))
+    # pymoo-backed optimisers: three problems in four are satisfiable as a whole (every offset from the witness)
+    all_witness = feasible_bias and draw(st.sampled_from([True, True, False, True]))
+    # families: membership vectors 0/1, later rows mostly the complement of the previous one (a partition of the candidates
+    # into families with a count restriction each), one weight, low offsets -- the aggregate violation is then constant
+    # over a whole region of the decision space while its rows are not
+    families = both_kinds and draw(st.sampled_from(MC_FAMILIES))
+    out = {"G": [], "H": []}
+    prev = None
+    for kind in ["H"] * nh + ["G"] * ng:
+        if families:
+            rel = "free" if prev is None else draw(st.sampled_from(["complement", "free", "complement"]))
+        else:
+            rel = "free" if prev is None else draw(st.sampled_from(["free", "complement", "free", "complement", "same"]))
+        if rel == "free":
+            a = draw(st.lists(st.sampled_from([0, 1] if families else MC_A), min_size=n, max_size=n))
+        elif rel == "complement":
+            a = [1 - min(1, v) for v in prev]
+        else:
+            a = list(prev)
+        prev = a
+        row = {"a": a, "wt": common_wt if (families or draw(st.sampled_from([True, True, False, True]))) else draw(st.sampled_from(CVWT))}
+        if npos and draw(st.sampled_from([False, False, True, False, False])):
+            row["posmask"] = draw(st.lists(st.integers(0, 1), min_size=npos, max_size=npos))    # counted at masked positions only
+        if kind == "G":
+            row["form"] = "signed" if (signed_ok and draw(st.sampled_from([False, True, False]))) else "pos"
+        else:
+            row["form"] = "signed" if (signed_ok and draw(st.sampled_from([False, False, True, False]))) else "abs"
+        how = "witness" if all_witness else ("any" if families else draw(st.sampled_from(["any", "witness", "any"])))
+        if how == "witness":
+            row["b"] = collect(a, row.get("posmask")) + (draw(st.sampled_from([0, 0, 1])) if kind == "G" else 0)
+        else:
+            # arbitrary small offset, often well below what a decision collects: several rows violated at once, an
+            # exchange then moves violation between rows
+            row["b"] = draw(st.integers(0, bmax)) // draw(st.sampled_from([1, 2, 4, 2]))
+        out[kind].append(row)
+    return out
+
+
+@st.composite
+def subset_spec(draw, nobj, nmax=12, kmax=6, infeasible_ok=False, matrix_eval=False, signed_ok=False, slot=SLOT_GA,
+                cons_lists=(CONS_GA, CONS_MATRIX_GA), feasible_bias=True, tie_prone=False):
+    # tie_prone: ONE draw of the caller fixes the combination "several integer-valued constraint rows of both kinds + an
+    # objective that is not a sum of per-member terms" (a conjunction of independent draws comes out too unevenly)
+    kind = draw(st.sampled_from(["table", "table", "ebv", "table"] if tie_prone else ["table", "table", "table", "ebv"]))
+    shape = draw(st.sampled_from(["typical"] * 8 + ["any", "typical"] if tie_prone else ["typical"] * 7 + ["any", "any", "full"]))
     if shape == "typical":
         n = draw(st.integers(3, nmax))
         k = draw(st.integers(2, min(n - 1, kmax)))
@@ -553,7 +706,7 @@ def subset_spec(draw, nobj, nmax=12, kmax=6, infeasible_ok=False, matrix_eval=Fa
         else:
             spec["labels"] = draw(st.lists(st.integers(-6, 40), min_size=n, max_size=n, unique=True))
         spec["vals"] = _numbers(draw, n * nobj)
-        spec["q"] = draw(st.sampled_from([0.0, 0.0, 0.0, 1.0, -1.0, 0.5]))
+        spec["q"] = draw(st.sampled_from([1.0, 0.0, -1.0, 0.5, 1.0] if tie_prone else [0.0, 0.0, 0.0, 1.0, -1.0, 0.5]))
         spec["u"] = draw(st.lists(st.integers(-2, 2), min_size=n, max_size=n))
         # evalfn receives a decision VECTOR: a cost per (candidate, position) makes its value depend on where a member sits
         spec["slot"] = _numbers(draw, n * k) if draw(st.sampled_from(slot)) else None
@@ -568,9 +721,17 @@ def subset_spec(draw, nobj, nmax=12, kmax=6, infeasible_ok=False, matrix_eval=Fa
             spec["ntrait"] = nobj
             spec["trans"] = "identity"
         spec["ebv"] = _numbers(draw, nrow * spec["ntrait"])
-    cons = draw(st.sampled_from(CONS if spec.get("elementwise", True) else CONS_MATRIX))
+    cons = "multi" if tie_prone else draw(st.sampled_from(cons_lists[0] if spec.get("elementwise", True) else cons_lists[1]))
     spec["ineq"] = None
     spec["eq"] = None
+    spec["mc"] = None
+    if cons == "multi":
+        wit = list(draw(st.permutations(list(range(n)))))[:k]       # witness decision: candidate numbers in position order
+        spec["mc"] = draw(mc_rows(
+            n, lambda a, pm: sum(a[j] * (pm[i] if pm else 1) for i, j in enumerate(wit)), bmax=k, signed_ok=signed_ok,
+            feasible_bias=feasible_bias, both_kinds=tie_prone, npos=k if (kind == "table" and draw(st.sampled_from(slot))) else 0))
+        # the classic single rows (capped count; sum mod m) may stand in front of them
+        cons = draw(st.sampled_from(["none", "none", "ineq", "none", "eq", "none"]))
     if cons in ("ineq", "both"):
         base = 1 if (infeasible_ok and draw(st.sampled_from([False] * 3 + [True] + [False] * 4))) else 0
         spec["ineq"] = {"flags": draw(st.lists(st.integers(0, 1), min_size=n, max_size=n)),
@@ -588,8 +749,10 @@ def subset_spec(draw, nobj, nmax=12, kmax=6, infeasible_ok=False, matrix_eval=Fa
 
 @st.composite
 def exact_case(draw):
-    algo = draw(st.sampled_from(["sorting", "sd", "sd", "ssd"]))
-    spec = draw(subset_spec(1, infeasible_ok=True, slot=SLOT_EXACT))
+    tie_prone = draw(st.sampled_from([False, True, False, True, False, True, False]))
+    algo = draw(st.sampled_from(["ssd", "sd", "ssd", "sd"] if tie_prone else ["sorting", "sd", "ssd", "sorting", "sd"]))
+    spec = draw(subset_spec(1, infeasible_ok=True, slot=SLOT_EXACT, cons_lists=(CONS_EXACT, CONS_EXACT), feasible_bias=False,
+                            tie_prone=tie_prone))
     rng = {"type": draw(st.sampled_from(["RandomState", "Generator", "global"])), "seed": draw(st.integers(0, 2 ** 31 - 1))}
     return {"algo": algo, "spec": spec, "rng": rng}
 
@@ -641,13 +804,24 @@ def vector_spec(draw, family, nobj, matrix_both=False):
     spec["A"] = _numbers(draw, n * nobj)
     spec["q"] = draw(st.sampled_from([0.0, 0.0, 1.0, -0.5])) if kind == "table" else 0.0
     spec["u"] = draw(st.lists(st.integers(-2, 2), min_size=n, max_size=n))
-    cons = draw(st.sampled_from(["none", "none", "ineq", "ineq", "eq", "both"] if spec.get("elementwise", True) else CONS_MATRIX))
-    if matrix_both:
-        cons = "both"
-    elif kind == "ebv" or family == "real":
-        cons = {"eq": "ineq", "both": "ineq"}.get(cons, cons)      # equality on a real vector: measure-zero feasible set
+    cons = draw(st.sampled_from(["none", "none", "multi", "ineq", "ineq", "multi", "eq", "both", "none"]
+                                if spec.get("elementwise", True) else CONS_MATRIX_GA))
+    eq_ok = not (kind == "ebv" or family == "real")             # equality on a real vector: measure-zero feasible set
     spec["ineq"] = None
     spec["eq"] = None
+    spec["mc"] = None
+    if cons == "multi" or (matrix_both and draw(st.sampled_from([False, True, False]))):
+        if family == "real":
+            wit = [a + draw(st.sampled_from([0.0, 0.5, 1.0, 0.5])) * (b - a) for a, b in zip(lo, hi)]
+        else:
+            wit = [draw(st.integers(a, b)) for a, b in zip(lo, hi)]
+        spec["mc"] = draw(mc_rows(n, lambda a, pm: sum(ai * xi for ai, xi in zip(a, wit)), bmax=max(1, int(max(hi))),
+                                  eq_ok=eq_ok, signed_ok=True))
+        cons = draw(st.sampled_from(["none", "none", "ineq", "none", "eq", "none"]))
+    if matrix_both:
+        cons = "both"
+    elif not eq_ok:
+        cons = {"eq": "ineq", "both": "ineq"}.get(cons, cons)
     if cons in ("ineq", "both"):
         c = draw(st.lists(st.integers(0, 2), min_size=n, max_size=n))
         lo_load = sum(ci * a for ci, a in zip(c, lo))
@@ -688,7 +862,10 @@ def _scale_labels(ctx, spec):
     e = int(spec.get("scale_exp", 0))
     ctx.label("objective_unit<=1e-6", e <= -6)
     ctx.label("objective_unit>=1e4", e >= 4)
-    both = bool(spec["ineq"] and spec["eq"])
+    ng, nh = spec_rows(spec)
+    both = ng >= 1 and nh >= 1
+    ctx.label("several_constraint_rows", ng + nh >= 2)
+    ctx.label("several_rows_of_both_kinds", both and ng + nh >= 3)
     ctx.label("matrix_evaluation", spec.get("elementwise", True) is False)
     ctx.label("matrix_evaluation_with_ineq_and_eq", spec.get("elementwise", True) is False and both)
 
@@ -696,7 +873,7 @@ def _scale_labels(ctx, spec):
 def _spec_labels(ctx, spec, nobj_vals):
     n, k = len(spec["labels"]), spec["k"]
     ctx.label("kind=" + spec["kind"])
-    ctx.label("constrained", bool(spec["ineq"] or spec["eq"]))
+    ctx.label("constrained", is_constrained(spec))
     ctx.label("infeasible_by_construction", bool(spec["ineq"] and spec["ineq"]["base"]))
     ctx.label("n==k", n == k)
     ctx.label("k==1", k == 1)
@@ -719,7 +896,7 @@ def check_exact(case, ctx):
     ctx.label("algo=" + algo)
     sv = sorted(set(float(s[0]) for s in singles))
     ctx.label("distinct_single_values_closer_than_1e-8", any(b - a < 1e-8 for a, b in zip(sv, sv[1:])))
-    constrained = bool(spec["ineq"] or spec["eq"])
+    constrained = is_constrained(spec)
     # "separable" in the property's sense: the value is a sum of per-member terms of the selected SET.  A position-
     # dependent objective is not a function of the set at all (the same members in another order score differently), so
     # neither the sorting rule nor a brute force over C(n,k) sets says anything about it: clause not applied.
@@ -773,6 +950,8 @@ def check_exact(case, ctx):
     if algo in ("sd", "ssd") and valid:
         score = float(sum(fx))
         outside = [e for e in space if e not in set(x.tolist())]
+        gx, hx = prob.evalfn(x)[1:]
+        tied_rows_differ = tied_eq_differs = tied_score = False
         for i in range(k):
             for e in outside:
                 y = x.copy()
@@ -780,12 +959,20 @@ def check_exact(case, ctx):
                 o, g, h = prob.evalfn(y)
                 cvy = float(numpy.sum(g) + numpy.sum(h))
                 sy = float(numpy.sum(o))
+                if cvy == cvx:
+                    # the situation small-integer constraint data are generated for: same aggregate, other rows
+                    tied_rows_differ = tied_rows_differ or not (numpy.array_equal(g, gx) and numpy.array_equal(h, hx))
+                    tied_eq_differs = tied_eq_differs or not numpy.array_equal(h, hx)
+                    tied_score = tied_score or sy == score
                 better = cvy < cvx or (cvy == cvx and sy < score)
                 if better:
                     ctx.fail("hillclimber.not_local_optimum",
                              "%s returned %s (cv %r, score %r) but replacing position %d by %d gives cv %r, score %r" % (
                                  type(opt).__name__, x.tolist(), cvx, score, i, e, cvy, sy))
         ctx.label("local_optimality_scanned")
+        ctx.label("neighbour_with_tied_aggregate_violation_but_different_rows", tied_rows_differ)
+        ctx.label("neighbour_with_tied_aggregate_violation_but_different_equality_rows", tied_eq_differs)
+        ctx.label("neighbour_with_tied_violation_and_tied_score", tied_score)
         ctx.label("local_optimality_scanned_position_dependent", position_dependent)
         ctx.label("local_optimality_scanned_position_dependent_n==k+1", position_dependent and n == k + 1)
         if "gbest_score" in misc:
@@ -836,7 +1023,7 @@ def check_ga_subset(case, ctx):
     singles = [prob.evalfn(numpy.array([e]))[0] for e in space]
     _spec_labels(ctx, spec, len(set(tuple(float(v) for v in s) for s in singles)))
     ctx.label("algo=" + algo)
-    constrained = bool(spec["ineq"] or spec["eq"])
+    constrained = is_constrained(spec)
     kw = {"ngen": case["ngen"], "pop_size": case["pop"]}
     if algo == "SubsetGA":
         opt = SubsetGeneticAlgorithm(**kw)
@@ -896,7 +1083,7 @@ def check_ga_vector(case, ctx):
     ctx.label("family=" + family)
     ctx.label("multiobjective" if case["mo"] else "singleobjective")
     ctx.label("kind=" + spec["kind"])
-    constrained = bool(spec["ineq"] or spec["eq"])
+    constrained = is_constrained(spec)
     ctx.label("constrained", constrained)
     ctx.label("infeasible_by_construction", bool(spec["ineq"] and spec["ineq"]["base"]))
     ctx.label("has_pinned_variable", any(a == b for a, b in zip(spec["lo"], spec["hi"])))
@@ -1105,25 +1292,27 @@ def check_operators(case, ctx):
 
 # =====================================================================================================================
 SUBCHECKS = [
-    SubCheck("exact", check_exact, exact_case(), quick=350, thorough=4000, shards_quick=4,
+    SubCheck("exact", check_exact, exact_case(), quick=500, thorough=5000, shards_quick=4,
              rule="generated (sorting | steepest-descent | sorting+steepest-descent) x (harness table problem separable/"
-                  "non-separable, order-independent or position-dependent (slot costs / position-masked constraint) | real EBV subset problem) x objective unit 1e-12..1e15 / near-tied data x (none|ineq|eq|both constraints) x rng kind/seed; "
+                  "non-separable, order-independent or position-dependent (slot costs / position-masked constraint) | real EBV subset problem) x objective unit 1e-12..1e15 / near-tied data x (none|ineq|eq|both|2-4 small-integer rows of both kinds) x rng kind/seed; "
                   "non-trivial = n > k >= 2 and >= 3 distinct single-member objective values; distinct by sha1 of the case",
              required_labels=("bruteforce_compared", "local_optimality_scanned", "constrained", "nonseparable",
                               "labels_not_arange", "sd_start_with_replacement_has_duplicate", "objective_unit<=1e-6",
                               "objective_unit>=1e4", "distinct_single_values_closer_than_1e-8",
                               "position_dependent_objective", "position_dependent_constraint",
-                              "local_optimality_scanned_position_dependent")),
+                              "local_optimality_scanned_position_dependent", "several_rows_of_both_kinds",
+                              "neighbour_with_tied_aggregate_violation_but_different_equality_rows",
+                              "neighbour_with_tied_violation_and_tied_score")),
     SubCheck("ga_subset", check_ga_subset, ga_subset_case(), quick=100, thorough=1500, shards_quick=6,
              rule="generated 7 pymoo-backed subset optimiser classes x problems as in 'exact' (1-3 objectives) x ngen 1-6 x "
                   "pop_size 4-16 x element-wise / population-wise evaluation; non-trivial = n > k >= 2 and >= 3 distinct single-member objective vectors",
-             required_labels=("front_size>=2", "constrained", "matrix_evaluation_with_ineq_and_eq", "algo=SubsetGA", "algo=NSGA2", "algo=NSGA3",
+             required_labels=("front_size>=2", "constrained", "matrix_evaluation_with_ineq_and_eq", "several_rows_of_both_kinds", "algo=SubsetGA", "algo=NSGA2", "algo=NSGA3",
                               "algo=MemeticSteepest", "algo=MemeticStochastic", "algo=MemeticMutatorA", "algo=MemeticMutatorB")),
     SubCheck("ga_vector", check_ga_vector, ga_vector_case(), quick=110, thorough=1500, shards_quick=4,
              rule="generated (real|integer|binary) x (GA | NSGA2) x (harness linear(+quadratic) problem | real EBV problem) x "
                   "bounds incl. pinned variables x constraints x objective unit x element-wise / population-wise evaluation; non-trivial = >= 2 variables and >= 3 distinct coefficients",
              required_labels=("front_size>=2", "constrained", "family=real", "family=integer", "family=binary", "has_pinned_variable", "matrix_evaluation_of_direct_Problem_subclass",
-                              "matrix_evaluation_with_ineq_and_eq")),
+                              "matrix_evaluation_with_ineq_and_eq", "several_rows_of_both_kinds")),
     SubCheck("operators", check_operators, operator_case(), quick=300, thorough=4000, shards_quick=2,
              rule="generated parent populations (valid subsets as label rows; integer vectors within bounds) for each operator of "
                   "pymoo_addon; non-trivial = n > k >= 2 (subset operators) / >= 2 variables with a free one (integer operators)",
